@@ -374,7 +374,8 @@ def replay_file(prop_id, path, quiet=False):
 
 
 def save_replay(prop_id, part_name, failure):
-    d = os.path.join(VERIF, 'replays', prop_id)
+    # VERIF_REPLAY_DIR redirects failure replays (used by the tools that run the checks against seeded changes / mutants)
+    d = os.path.join(os.environ.get('VERIF_REPLAY_DIR') or os.path.join(VERIF, 'replays'), prop_id)
     os.makedirs(d, exist_ok=True)
     h = '%016x' % case_hash(failure['case'])
     path = os.path.join(d, f'fail-{part_name}-{h}.json')
